@@ -197,7 +197,8 @@ Print Assumptions C08_ratio_reduce_signed.
    v; [add_known_fallback] is their conjunction = the recorded classes
    float-fallback-representable and bigint-small-repr-dependence for +, and nothing else
    (C08_add_known_fallback_tight).
-   STILL OPEN: the same for - * / and the variadic folds. *)
+   The same is proved uniformly for + - * below (C08_op_*, C08_full_addsubmul_outside).
+   STILL OPEN: the same for / , and the variadic folds of the builtins. *)
 Definition C08_inexact_only_if_stmt : Prop := forall p a b r (known_fallback : num -> num -> bool),
   wfb a = true -> wfb b = true -> is_exact a = true -> is_exact b = true ->
   known_fallback a b = false -> num_add p a b = Ok r -> is_exact r = false ->
@@ -242,6 +243,43 @@ Theorem C08_ratio_checked_addsub_none_iff : forall (sub : bool) p w a b, 2 <= w 
   else rchecked_addsub sub p w a b = Ok None.
 Proof. exact rchecked_addsub_fits. Qed.
 Print Assumptions C08_ratio_checked_addsub_none_iff.
+
+(* ---- + - * uniformly: [op_takes_fallback o a b] are the explicit overflow conditions of the
+   three operators, [op_known_fallback o a b] = fallback taken although the true result is
+   representable = the recorded classes float-fallback-representable and
+   bigint-small-repr-dependence, exactly (tightness below) *)
+Theorem C08_op_inexact_iff : forall o p a b r,
+  wfb a = true -> wfb b = true -> is_exact a = true -> is_exact b = true ->
+  op_fn o p a b = Ok r -> is_exact r = negb (op_takes_fallback o a b).
+Proof. exact op_inexact_iff. Qed.
+Print Assumptions C08_op_inexact_iff.
+
+Theorem C08_op_known_fallback_tight : forall o p a b r,
+  wfb a = true -> wfb b = true -> is_exact a = true -> is_exact b = true ->
+  op_known_fallback o a b = true -> op_fn o p a b = Ok r ->
+  is_exact r = false /\
+  exists x, wfb x = true /\ is_exact x = true /\ (qv x == op_q o (qv a) (qv b))%Q.
+Proof. exact op_known_fallback_tight. Qed.
+Print Assumptions C08_op_known_fallback_tight.
+
+(* C08_full for + - * (op_fn o = num_add / num_sub / num_mul, op_q o = Qplus / Qminus / Qmult)
+   on the complement of the decidable defect class: the operation is total, the result is
+   well-formed, an exact result is the true value, an inexact result is justified *)
+Theorem C08_full_addsubmul_outside : forall o p a b,
+  wfb a = true -> wfb b = true -> is_exact a = true -> is_exact b = true ->
+  op_known_fallback o a b = false ->
+  exists r, op_fn o p a b = Ok r /\ wfb r = true /\
+    (is_exact r = true -> (qv r == op_q o (qv a) (qv b))%Q) /\
+    (is_exact r = false ->
+     forall x, wfb x = true -> is_exact x = true -> ~ (qv x == op_q o (qv a) (qv b))%Q).
+Proof. exact op_full_outside. Qed.
+Print Assumptions C08_full_addsubmul_outside.
+
+Theorem C08_ratio_checked_mul_none_iff : forall p w a b, 2 <= w -> rok w a -> rok w b ->
+  if mul_fits w a b then exists r, rchecked_mul p w a b = Ok (Some r)
+  else rchecked_mul p w a b = Ok None.
+Proof. exact rchecked_mul_fits. Qed.
+Print Assumptions C08_ratio_checked_mul_none_iff.
 
 (* 2147483648 + -1/1 is the float 2147483647.0 although 2147483647 is a Fixnum *)
 Theorem C08_inexact_only_if_refuted : ~ C08_inexact_only_if_stmt.
@@ -333,6 +371,21 @@ Example C08_example_inexact :
   add_known_fallback (BigInt 5) (Rational 1 2) = true /\
   add_known_fallback (Rational (2 ^ 31 - 1) 1) (Rational 1 1) = true /\
   add_takes_fallback (Fixnum 5) (Rational 1 2) = false.
+Proof. repeat split; vm_compute; reflexivity. Qed.
+
+(* C08_full_addsubmul_outside / C08_op_*: for * and -, a justified fallback (outside the class,
+   inexact), the witness of C08_refuted_float_fallback inside the class, exact cases outside *)
+Example C08_example_ops :
+  op_takes_fallback AMul (Fixnum (2 ^ 32)) (Rational 1 3) = true /\
+  op_known_fallback AMul (Fixnum (2 ^ 32)) (Rational 1 3) = false /\
+  inexact_result (num_mul Debug (Fixnum (2 ^ 32)) (Rational 1 3)) = true /\
+  op_known_fallback AMul (Fixnum (2 ^ 32)) (Rational 1 2) = true /\
+  op_known_fallback ASub (Rational 1 2) (Fixnum (2 ^ 31)) = false /\
+  inexact_result (num_sub Release (Rational 1 2) (Fixnum (2 ^ 31))) = true /\
+  op_known_fallback ASub (Rational (- 2 ^ 31) 1) (Fixnum 1) = true /\
+  op_takes_fallback ASub (Rational 7 2) (Fixnum 3) = false /\
+  num_sub Debug (Rational 7 2) (Fixnum 3) = Ok (Rational 1 2) /\
+  op_takes_fallback AMul (Rational (2 ^ 31 - 1) 2) (Fixnum 2) = false.
 Proof. repeat split; vm_compute; reflexivity. Qed.
 
 (* C08_modulo_exact: hypotheses satisfiable on each interesting arm, incl. Fixnum by n/1 *)
